@@ -152,6 +152,17 @@ def random_prog(name, rng, kind, nsteps, maxlen, big):
     return Prog(name, kind, gen.render_program(g.stmts, rng))
 
 
+ZERO_RECORD_PROGRAMS = [
+    ("empty", ""),
+    ("comment", "# nothing here\n\n"),
+    ("imports", "import ipv4;\nimport io;\nimport text;\n"),
+    ("lets", "import ipv4;\nlet u = ipv4::udp::flow(10.0.0.1:1000, 10.0.0.2:2000);\nlet p = u.client_dgram(\"kept\");\nlet n = 5;\n"),
+    ("warnings", "import text;\ntext::concat(\"a\", \"b\");\nlet s = \"x\";\ns;\n"),
+    ("jump", "import time;\ntime::jump_seconds(3);\ntime::jump_nanos(1);\n"),
+    ("hole", "import ipv4;\nlet t = ipv4::tcp::flow(1.2.3.4:1, 1.2.3.5:2);\nt.client_hole(100);\n"),
+]
+
+
 def boundary_sequences():
     """record sizes chosen against BufWriter's branches (capacity 8192, header 24 bytes)"""
     c = CAP
@@ -181,6 +192,9 @@ def make_programs(ctx, datadir):
         P.append(random_prog("tiny%d" % i, r, "tiny-random", r.randint(2, 8), 48, 0.0))
     P.append(sized_prog("tinyudp", "tiny-sized", [58, 59, 100, 300, 1000], datadir, r))
     P.append(tcp_prog("tinytcp", [10, 200, 0, 33], datadir, r))
+    # no record at all: the file is the 24-byte header, written only by the explicit flush
+    for nm, src in ZERO_RECORD_PROGRAMS:
+        P.append(Prog("zero-" + nm, "no-records", src))
     # medium / several multiples of the buffer
     for i in range(8 if t else 1):
         P.append(random_prog("med%d" % i, r, "medium-random", r.randint(60, 120) if t else 45, 300, 0.0))
@@ -503,37 +517,6 @@ def path_literal(b):
     return ('"' + "".join(out) + '"').encode("ascii")
 
 
-def refused_input_name(ctx, d, stats, ntag, nm, src, keep):
-    """an input whose NAME is not valid UTF-8, existing or not: the argument parser refuses the command line (exit
-    status 2, message on stderr).  Oracle: a diagnostic, a non-zero exit status, no panic, no 'ok', no output."""
-    for exists in (True, False):
-        tag = "input-name-%s-%s" % (ntag, "present" if exists else "missing")
-        sd = os.path.join(d, "cat", "%s-%d" % (tag, keep)).encode()
-        os.makedirs(os.path.join(sd, b"out"))
-        ip = os.path.join(sd, nm[:-4] + b".rsyn")
-        if exists:
-            with open(ip, "wb") as f:
-                f.write(src)
-        args = [b"--color", b"never"] + ([b"-k"] if keep else []) + [b"--out-dir", os.path.join(sd, b"out"), ip]
-        rc, so, se = _run_one(common.RESYNTH, args, None)
-        ctx.count("catalogue:" + tag)
-        stats[tag] = stats.get(tag, 0) + 1
-        ctx.distinct((tag, keep))
-        rp = {"scenario": tag, "argv": [a.decode("latin-1") for a in args], "argv_encoding": "latin-1 (raw bytes)",
-              "keep": keep, "observed": {"rc": rc, "stdout": so[-600:], "stderr": se[-600:]}}
-        left = os.listdir(os.path.join(sd, b"out"))
-        if "panicked at" in se or rc < 0 or rc == 101:
-            ctx.fail("panic-on-io-failure", "%s: the process died rc=%s %s" % (tag, rc, se.strip()[:300]), rp)
-        elif rc == 0 and not (exists and left):
-            ctx.fail("exit-status-zero-after-io-failure", "%s: exit status 0 but nothing was compiled" % tag, rp)
-        elif rc != 0 and " ok" in so:
-            ctx.fail("success-claimed-for-incomplete-output", "%s: printed ok with exit status %d" % (tag, rc), rp)
-        elif rc != 0 and not (se.strip() or so.strip()):
-            ctx.fail("no-diagnostic", "%s: exit status %d without any message" % (tag, rc), rp)
-        elif rc != 0 and left and not keep:
-            ctx.fail("incomplete-output-left-behind", "%s: %r left" % (tag, left), rp)
-
-
 def catalogue(ctx, d, datadir):
     """creation / input / data-file failures and several inputs on one command line.
     Each scenario: (name, [inputs], arrangement) -> run once with and once without -k."""
@@ -560,7 +543,8 @@ def catalogue(ctx, d, datadir):
             os.makedirs(od)
         paths = []
         for label, src, expect, mspec in inputs:
-            ip = os.path.join(sd, label + ".rsyn")
+            # a bytes label is a raw (possibly non-UTF-8) file name: every path derived from it is bytes
+            ip = os.path.join(os.fsencode(sd), label + b".rsyn") if isinstance(label, bytes) else os.path.join(sd, label + ".rsyn")
             if src == "dir":
                 os.makedirs(ip)
             elif src == "longname":
@@ -585,12 +569,19 @@ def catalogue(ctx, d, datadir):
         cases = []
         for (label, src, expect, mspec), ip in zip(inputs, paths):
             stem = os.path.splitext(os.path.basename(ip))[0]
-            op = os.path.join(od, explicit_out(label) if explicit_out else stem + ".pcap")
-            o = observe(ip, op, rc, so, se)
+            if isinstance(ip, bytes):
+                # Path::display() is lossy: invalid sequences print as U+FFFD, as python's "replace" does
+                op = os.path.join(os.fsencode(od), stem + b".pcap")
+                o = observe(ip.decode("utf-8", "replace"), op, rc, so, se)
+                label = label.decode("latin-1")
+            else:
+                op = os.path.join(od, explicit_out(label) if explicit_out else stem + ".pcap")
+                o = observe(ip, op, rc, so, se)
             ctx.count("catalogue:" + tag)
             stats[tag] = stats.get(tag, 0) + 1
             rp = {"scenario": tag, "argv": args, "rlimit_fsize": rlimit, "keep": keep,
-                  "inputs": {l: (s.decode("utf-8", "replace") if isinstance(s, bytes) else s) for l, s, _, _ in inputs},
+                  "inputs": {(l.decode("latin-1") if isinstance(l, bytes) else l):
+                             (s.decode("utf-8", "replace") if isinstance(s, bytes) else s) for l, s, _, _ in inputs},
                   "observed": {"rc": rc, "stdout": so[-1500:], "stderr": se[-800:], "output_path": o.path_kind},
                   "how": "recreate the arrangement named by the scenario and run the argv"}
             before = len(ctx.violations)
@@ -619,7 +610,7 @@ def catalogue(ctx, d, datadir):
             if len(ctx.violations) == before and mspec is not None:
                 cases.append((label, o, mspec, rp))
         # correspondence
-        mc = [("%s-%d-%s" % (tag, n[0], label), keep, ms[0], ms[1], ms[2], [ms[3]]) for label, o, ms, rp in cases]
+        mc = [("%s-%d-%d" % (tag, n[0], i), keep, ms[0], ms[1], ms[2], [ms[3]]) for i, (label, o, ms, rp) in enumerate(cases)]
         if mc:
             mres = model_cases(mc, xcheck=1)
             for (label, o, ms, rp), c in zip(cases, mc):
@@ -657,6 +648,15 @@ def catalogue(ctx, d, datadir):
         full = lambda names: (lambda od: [os.symlink("/dev/full", os.path.join(od, nm + ".pcap")) for nm in names])
         scenario("dev-full-small", [("a", S, "fail", (True, S, mfiles(small), 0))], full(["a"]), keep)
         scenario("dev-full-big", [("b", B, "fail", (True, B, mfiles(big), 0))], full(["b"]), keep)
+        Z = ZERO_RECORD_PROGRAMS[2][1].encode()
+        scenario("dev-full-no-records", [("a", Z, "fail", (True, Z, {}, 0))], full(["a"]), keep)
+        scenario("outdir-missing-no-records", [("a", Z, "fail", (False, Z, {}, None))], None, keep,
+                 outdir=os.path.join(d, "cat", "nodirz%d" % keep, "x"))
+        scenario("output-is-directory-no-records", [("a", Z, "fail", (False, Z, {}, None))],
+                 lambda od: os.makedirs(os.path.join(od, "a.pcap")), keep)
+        ZJ = ZERO_RECORD_PROGRAMS[5][1].encode()
+        scenario("multi-dev-full-no-records", [("a", S, ) + okS, ("m", ZJ, "fail", (True, ZJ, {}, 0)), ("c", Z, "ok", (True, Z, {}, None))],
+                 full(["m"]), keep)
         # --- input failures
         scenario("input-missing", [("a", None, "fail", (True, None, {}, None))], None, keep)
         scenario("input-is-directory", [("a", "dir", "fail", (True, "unreadable", {}, None))], None, keep)
@@ -666,8 +666,12 @@ def catalogue(ctx, d, datadir):
             scenario("input-path-without-file-name-" + nm, [("a", S, ) + okS, ("m", pth, "fail", None)], None, keep)
         scenario("input-name-multibyte-utf8", [("caf\u00e9-\u4e16\u754c", S, ) + okS,
                                                ("manqu\u00e9", None, "fail", (True, None, {}, None))], None, keep)
+        # input NAMES that are not valid UTF-8 (raw bytes in argv): an existing one is compiled like any other, a
+        # missing one fails alone
         for ntag, nm in BYTE_NAMES[:3]:
-            refused_input_name(ctx, d, stats, ntag, nm, S, keep)
+            scenario("input-name-" + ntag, [("a", S, ) + okS, (nm[:-4], S, ) + okS,
+                                            (b"missing-" + nm[:-4], None, "fail", (True, None, {}, None)), ("c", S, ) + okS],
+                     None, keep)
         scenario("input-invalid-utf8-first-line", [("a", b"\xff\xfe\n" + S, "fail", (True, b"\xff\xfe\n" + S, mfiles(small), None))], None, keep)
         u8 = S + b"# \xc3\x28 broken\n" + b"u.client_dgram(\"after\");\n"
         scenario("input-invalid-utf8-after-packets", [("a", u8, "fail", (True, u8, mfiles(small), None))], None, keep)
@@ -802,7 +806,7 @@ def run(ctx):
             jobs.append((i, L, True))
             # without -k: every third offset, every offset near a mark
             near = any(abs(L - m) <= 2 for m in [0, len(p.base)] + p.bounds) or (L % CAP) <= 2 or (L % CAP) >= CAP - 2
-            if near or L % 3 == 0:
+            if near or L % 3 == 0 or len(p.base) <= 64:
                 jobs.append((i, L, False))
         mcases.append((p.name, "both", True, p.src, mfiles(p), offs))
     ctx.rng.shuffle(jobs)
